@@ -84,7 +84,7 @@ def single_headers(L, seg):
     vs = boundary_values(L, seg)
     firsts = sorted(set(v for v in vs if v <= L + 1))
     for a in firsts:
-        lasts = sorted(set([a, a + 1, L - 2, L - 1, L, L + 1, seg - 1, seg, 2 * seg, BIG]))
+        lasts = sorted(set([a, a + 1, L - 2, L - 1, L, L + 1, seg - 1, seg, seg + 1, 2 * seg - 1, 2 * seg, 2 * seg + 1, BIG]))
         for b in lasts:
             if b >= a:
                 out.append(("bytes=%d-%d" % (a, b), "first-last"))
@@ -95,6 +95,23 @@ def single_headers(L, seg):
     for n in sorted(set([0, 1, 2, L // 2, L - 1, L, L + 1, seg, seg + 1, BIG])):
         if n >= 0:
             out.append(("bytes=-%d" % n, "suffix"))
+    return out
+
+
+def segment_boundary_headers(L, seg):
+    """Ranges whose first/last byte sits at j*seg-1, j*seg, j*seg+1 for the first segment boundaries of the file."""
+    out = []
+    nseg = (L + seg - 1) // seg if seg else 0
+    for j in range(1, min(nseg, 4)):
+        b = j * seg
+        for first in (0, b - seg, b - 1, b):
+            for last in (b - 1, b, b + 1):
+                if 0 <= first <= last:
+                    out.append(("bytes=%d-%d" % (first, last), "first-last"))
+        out.append(("bytes=%d-" % (b - 1), "open-ended"))
+        out.append(("bytes=%d-" % b, "open-ended"))
+        out.append(("bytes=-%d" % (L - b), "suffix"))
+        out.append(("bytes=-%d" % (L - b + 1), "suffix"))
     return out
 
 
@@ -178,9 +195,9 @@ def run(ck):
             break
         with ck.watchdog(240, "group %d %r" % (gi, grp[:3])):
             _one_grid(ck, gi, grp, thorough)
-    ck.require_monitor("status", "partial-body", "content-range", "content-length", "full-body", "head-no-body")
+    ck.require_monitor("status", "wire-body-length", "partial-body", "content-range", "content-length", "full-body", "head-no-body")
     ck.require_reach("206", "416", "200-ignored-header", "clipped-at-eof", "suffix-longer-than-file", "multi-segment-chk",
-                     "literal", "sdmf", "mdmf", "empty-file", "range-crosses-segment", "head")
+                     "literal", "sdmf", "mdmf", "multi-segment-mdmf", "mdmf-three-or-more-segments", "empty-file", "range-crosses-segment", "head")
     ck.exhaustive = False
 
 
@@ -189,8 +206,16 @@ def _one_grid(ck, gi, grp, thorough):
     from vf import web
     crng = ck.rng("grid", gi)
     KEYPOOL.rewind()
+    from allmydata.mutable import publish
+    from allmydata.util import mathutil
     k = crng.choice([1, 2, 3])
     seg = crng.choice([32, 48, 64, 96, 128])
+    # MDMF segments are publish.DEFAULT_MUTABLE_MAX_SEGMENT_SIZE (128 KiB) rounded up to a multiple of k.  Lowering the
+    # constant for the run (the only knob there is; the download side reads the segment size from the share) makes the
+    # 0..300 byte files multi-segment, so ranges can be aimed at MDMF segment boundaries cheaply.
+    orig_mseg = publish.DEFAULT_MUTABLE_MAX_SEGMENT_SIZE
+    mseg_small = crng.choice([24, 32, 50, 64, 100])
+    mseg_big = crng.choice([1024, 4096, 8192])
     g = VGrid(nservers=crng.choice([3, 5]), seed=crng.getrandbits(32),
               profile=crng.choice(["fifo", "per-server-fifo", "free"]), keep_log=False)
     try:
@@ -211,10 +236,17 @@ def _one_grid(ck, gi, grp, thorough):
                 data = (data * (L // 4096 + 1))[:L]
                 data = bytes(b ^ ((i >> 12) & 0xFF) for i, b in enumerate(data)) if L < 50000 else data
             if cls == "big":
-                _one_file(ck, g, cbig, stubbig, web, frng, enc, L, data, cls, bigseg if enc == "imm" else 131072, dircap, thorough)
+                mseg = orig_mseg if L > orig_mseg else mseg_big          # > 128 KiB: the real segment size
             else:
-                _one_file(ck, g, c, stub, web, frng, enc, L, data, cls, seg if enc == "imm" else 131072, dircap, thorough)
+                mseg = mseg_small
+            publish.DEFAULT_MUTABLE_MAX_SEGMENT_SIZE = mseg
+            mseg_eff = mathutil.next_multiple(mseg, k)
+            if cls == "big":
+                _one_file(ck, g, cbig, stubbig, web, frng, enc, L, data, cls, bigseg if enc == "imm" else mseg_eff, dircap, thorough)
+            else:
+                _one_file(ck, g, c, stub, web, frng, enc, L, data, cls, seg if enc == "imm" else mseg_eff, dircap, thorough)
     finally:
+        publish.DEFAULT_MUTABLE_MAX_SEGMENT_SIZE = orig_mseg
         g.close()
 
 
@@ -235,8 +267,10 @@ def _one_file(ck, g, c, stub, web, rng, enc, L, data, cls, seg, dircap, thorough
         ck.hit("empty-file")
     if kind == "CHK" and L > seg:
         ck.hit("multi-segment-chk")
-    if kind == "MDMF" and L > 131072:
+    if kind == "MDMF" and L > seg:
         ck.hit("multi-segment-mdmf")
+        if L > 2 * seg:
+            ck.hit("mdmf-three-or-more-segments")
     usecap = cap
     if kind in ("SDMF", "MDMF") and rng.random() < .4:
         usecap = u.get_readonly().to_string()
@@ -256,17 +290,19 @@ def _one_file(ck, g, c, stub, web, rng, enc, L, data, cls, seg, dircap, thorough
         else:
             url = "/uri/%s/%s" % (web.q(dircap), name)
 
-    singles = single_headers(L, seg if seg <= 4096 else 4096)
+    singles = single_headers(L, seg if (seg <= 4096 or kind == "MDMF") else 4096)
+    segb = segment_boundary_headers(L, seg) if kind in ("CHK", "MDMF") else []
     inv, unit, garb = invalid_headers(L)
     len_h, multi = lenient_headers(L), multi_headers(L)
     if thorough and cls == "small":
-        hs = singles + inv + rng.sample(unit, 3) + rng.sample(garb, 6) + rng.sample(len_h, 4) + rng.sample(multi, 3)
+        hs = singles + segb + inv + rng.sample(unit, 3) + rng.sample(garb, 6) + rng.sample(len_h, 4) + rng.sample(multi, 3)
     elif cls == "small":
-        hs = mandatory_headers(L) + rng.sample(singles, min(len(singles), 14)) + rng.sample(inv, 1) + rng.sample(unit, 1) \
+        hs = mandatory_headers(L) + rng.sample(segb, min(len(segb), 8)) + rng.sample(singles, min(len(singles), 12)) + rng.sample(inv, 1) + rng.sample(unit, 1) \
             + rng.sample(garb, 3) + rng.sample(len_h, 2) + rng.sample(multi, 2)
     else:
         n = 10 if L > 100000 else 24
-        hs = mandatory_headers(L)[:14 if L < 100000 else 8] + rng.sample(singles, min(len(singles), n)) \
+        hs = mandatory_headers(L)[:14 if L < 100000 else 8] + rng.sample(segb, min(len(segb), 10 if L < 100000 else 6)) \
+            + rng.sample(singles, min(len(singles), n)) \
             + rng.sample(inv, 1) + rng.sample(garb, 2) + rng.sample(multi, 1) + rng.sample(len_h, 1)
         for _ in range(4):     # random interior ranges
             a = rng.randrange(0, L)
@@ -320,6 +356,13 @@ def _judge(ck, g, stub, web, method, url, h, hform, data, ctx):
         return
 
     ck.mon("status")
+    sh = last.get("server_headers") or {}
+    if method != "HEAD" and sh.get("content-length") is not None:
+        ck.mon("wire-body-length")
+        wrote = last.get("resource_wrote") or 0
+        if wrote != int(sh["content-length"]):
+            V("content-length-differs-from-body", "resource announced Content-Length %s but wrote %d body bytes on the wire "
+              "(the client saw %d; bytes beyond Content-Length corrupt the connection)" % (sh["content-length"], wrote, len(body)))
     cr = hd.get("content-range")
     clen = hd.get("content-length")
     is_head = method == "HEAD"
